@@ -52,6 +52,18 @@ Definition args_ok (h : ahargs) : bool :=
 Definition returns_object (hp : shelper) : bool :=
   match hp with SSetAttrOp _ | SDelAttrOp _ => false | _ => true end.
 
+(* operations whose Err outcome is also judged by "the receiver is as before": scalar helpers,
+   assignment, deletion, update(..)/transform(..) with at most one attribute keyword.  Element
+   helpers belong to C06/C04; multi-keyword update/transform(_inplace=True) and reset(_inplace=True)
+   commit attribute by attribute -- the recorded open findings of C04 (KNOWN_FINDINGS.json). *)
+Definition err_state_checked (hp : shelper) (h : ahargs) : bool :=
+  match hp with
+  | SResetTop => false
+  | SUpdateTop => match ah_kw h with Some kw => length kw <=? 1 | None => true end
+  | STransformTop => length (ah_kwfn h) <=? 1
+  | _ => negb (is_elem_helper hp)
+  end.
+
 Definition judge (expected : sres aval) (hp : shelper) (h : ahargs) (pre post : graph)
            (x : nat) (out : list Z) : bool :=
   let res := root_val post (length (fst pre)) in
@@ -70,10 +82,10 @@ Definition judge (expected : sres aval) (hp : shelper) (h : ahargs) (pre post : 
   else
     (* a call that raises leaves the receiver as it was (C05-G1: `del obj.a` on an attribute
        without default that holds nothing raised AttributeError AFTER resetting the dependants):
-       the abstract state of the receiver after the error is the state before.  Scalar /
-       top-level helpers, assignment and deletion only (element helpers: C06 / C07). *)
-    (if is_elem_helper hp then true
-     else aval_eqb (abs_g pre (root_val pre x)) (abs_g post (root_val post x)))
+       the abstract state of the receiver after the error is the state before
+       (`err_state_checked`: single-attribute operations). *)
+    (if err_state_checked hp h
+     then aval_eqb (abs_g pre (root_val pre x)) (abs_g post (root_val post x)) else true)
     &&
     match expected with
     | SOk _ => false
